@@ -1032,7 +1032,12 @@ K_OPS = {"chain64", "chain1024", "ed_ops", "ed128_ops", "suyama_ops", "ed_chainm
 
 def corpus_case(line):
     """corpus lines: ops the Lean driver models are compared (K), every line is judged by the oracle"""
-    return Case(line, k=line.split(" ", 1)[0] in K_OPS)
+    op = line.split(" ", 1)[0]
+    k = op in K_OPS
+    if op == "ecm_select":          # the model of ecm()'s selection agrees exactly when the construction decides the outcome
+        a = line.split()
+        k = ref_ecm_select(int(a[2]), int(a[3])) is not None
+    return Case(line, k=k)
 
 
 def klass(case, ans):
@@ -1180,6 +1185,22 @@ CLAIM += (" One curve run end to end (ecm_curve): in every commutative group in 
 import props.c15_ecm128 as _e128
 
 K_OPS |= _e128.OPS
+LEAN += ["Ymq.Props.C15Ecm128"]
+THEOREMS += [
+    "Ymq.C15.e128_stage1_point_spec",
+    "Ymq.C15.e128_stage1_point_of_smoothbase",
+    "Ymq.C15.e128_baby_steps_spec",
+    "Ymq.C15.e128_giant_steps_spec",
+    "Ymq.C15.e128_index_sets",
+    "Ymq.C15.e128_tables_cover",
+    "Ymq.C15.e128_accumulate_vanishes",
+    "Ymq.C15.e128_hit_product_zero",
+    "Ymq.C15.e128_returned_pair_sound",
+    "Ymq.C15.e128_curve_no_panic",
+    "Ymq.C15.e128_curve_b_no_panic",
+    "Ymq.C15.e128_ecm_loop_spec",
+    "Ymq.C15.e128_giant_range_sharp",
+]
 MODELLED += [
     "ecm128::ecm_curve end to end (Ymq/Model/Ecm128Curve.lean, every panic site a `none`): stage 1 over sb.factors (scalar64_mul = "
     "Chain.scalar64Mul128 per block, the `fg.x == 0` exit with its gcd, the gcd after the loop), assert!(is_valid(ext(g))), the baby "
@@ -1210,3 +1231,14 @@ def klass(case, ans):
     if case.op in _e128.OPS:
         return _e128.klass(case, ans)
     return _klass1(case, ans)
+
+CLAIM += (" The 128-bit ECM (ecm128::ecm_curve, ecm128::ecm) end to end: in every commutative group in which the formulas are the "
+          "group law stage 1 never panics and hands [prod of sb.factors]G to stage 2 (e128_stage1_point_spec), the baby table holds "
+          "[b]Q for exactly the b of C16's ecm128 baby set and the giant table [i d1]Q for exactly i = 1..d2, the closed range of "
+          "C16's ecm128_cover / ecm128_grid_exact (e128_index_sets, e128_tables_cover); equal affine y of a baby and a giant entry "
+          "make the accumulated product 0 (e128_hit_product_zero); a returned pair is always a proper factorisation of n "
+          "(e128_returned_pair_sound, any environment); over every commutative ring the run never panics for a generator on its "
+          "curve, blocks of SmoothBase::new(b1 <= 2^24, false) and any row of the table (e128_curve_b_no_panic); the curve loop "
+          "returns what its first productive seed gives (e128_ecm_loop_spec). Tied to the code by K on the real ecm_curve / ecm "
+          "(returned pair) for moduli of 65..128 bits (also >= 2^127 and just below 2^128) with constructed orders at the rims of "
+          "the grid, and on the intermediate stage-1 point and tables.")
